@@ -38,6 +38,28 @@ def fn(name):
     return sq.find_method(_CRATE[0], J + name, "JitterRng", name)  # public methods may live in an impl block of another module
 
 
+def counted_loops(ev, st, recs, cnts):
+    """(record, counter) of every loop that runs exactly `c` times for some c in cnts: a counter from 0 with `counter < c` and
+    +1 per iteration, or a counter from c with `counter > 0` and -1 per iteration"""
+    out = []
+    for rec in recs:
+        for (cond, nxt, world, assume) in rec.conts:
+            s2 = st.fork()
+            s2.assume = tuple(assume)
+            for n, wh, init, t, rng in rec.vars:
+                if not isinstance(t, T.T) or not isinstance(nxt.get(n), T.T) or not isinstance(init, T.T):
+                    continue
+                nv = LP.resolve(ev, s2, nxt[n])
+                up = init.op == "const" and init.aux == 0 and nv is T.add(t, T.const(1, t.w)) and \
+                    any(a.op == "ult" and a.args[0] is t and any(a.args[1] is c for c in cnts) for a in assume)
+                down = any(init is c for c in cnts) and nv is T.sub(t, T.const(1, t.w)) and \
+                    any((a.op == "ult" and a.args[0].op == "const" and a.args[0].aux == 0 and a.args[1] is t) or a is T.bnot(T.eqz(t))
+                        for a in assume)
+                if up or down:
+                    out.append((rec, t))
+    return out
+
+
 def role_seq(calls):
     """callee sequence in role names (a renamed private function keeps its role name here)"""
     back = {v.split("::")[-1]: k for k, v in ROLE.items()}
@@ -177,14 +199,13 @@ def run(chk, tier):
     post = st.objs[args[0].obj]
     ok = post.fields[iD] is REF.lfsr(pre.fields[iD], tm)
     chk.ob("R5", "lfsr_time|exactly one fold of `time` into the pool", ok, "" if ok else T.show(post.fields[iD], 2), where=crate.bodies[tk]["span"][0])
-    recs = [r_ for r_ in ev.loops_log if r_.body == tk]
+    recs = list(ev.loops_log)  # the loop may sit in an iterator combinator (`(0..n).fold(..)`): every loop of the evaluation
     okl = len(recs) == 1
     if okl:
         rec = recs[0]
         tcs = timer_calls(ev)
         cnt = T.ite(var, REF.random_loop_cnt(reading(tcs[0][4]), pre.fields[iD], 4), T.const(0, 32)) if tcs else None
-        bounds = [a for (c_, n_, w_, assume) in rec.conts for a in assume if a.op == "ult" and cnt is not None and a.args[1] is cnt]
-        okl = bool(bounds)
+        okl = cnt is not None and bool(counted_loops(ev, st, recs, [cnt]))
         # the throw-away loop must not touch the generator
         touched = [wh for n_, wh, init, t, rng in rec.vars if wh[0] == args[0].obj]
         okl = okl and not touched
@@ -202,7 +223,7 @@ def run(chk, tier):
     pre = st.objs[args[0].obj]
     var = args[2]
     ev.call_body(st, mk, args)
-    recs = [r_ for r_ in ev.loops_log if r_.body == mk]
+    recs = list(ev.loops_log)
     okm = len(recs) == 1
     detail = ""
     if okm:
@@ -211,7 +232,7 @@ def run(chk, tier):
         rlc = REF.random_loop_cnt(reading(tcs[0][4]), pre.fields[iD], 4) if tcs else None
         cnt = T.add(T.const(128, 32), T.ite(var, rlc, T.const(0, 32))) if rlc is not None else None
         alt = T.ite(var, T.add(T.const(128, 32), rlc), T.const(128, 32)) if rlc is not None else None
-        bound_ok = any(a.op == "ult" and (a.args[1] is cnt or a.args[1] is alt) for (c_, n_, w_, assume) in rec.conts for a in assume)
+        bound_ok = cnt is not None and bool(counted_loops(ev, st, recs, [cnt, alt]))
         # index update
         idx_ok = False
         init_ok = False
@@ -315,11 +336,20 @@ def run(chk, tier):
             s2 = st.fork()
             s2.assume = tuple(assume)
             for n, wh, init, t, rng in r_.vars:
-                if isinstance(init, T.T) and init.op == "const" and init.aux == 0 and isinstance(t, T.T) and isinstance(nxt.get(n), T.T) \
-                        and any(a.op == "ult" and a.args[0] is t for a in assume):
-                    nv = LP.resolve(ev, s2, nxt[n])
+                if not (isinstance(init, T.T) and isinstance(t, T.T) and isinstance(nxt.get(n), T.T)):
+                    continue
+                nv = LP.resolve(ev, s2, nxt[n])
+                if init.op == "const" and init.aux == 0 and any(a.op == "ult" and a.args[0] is t for a in assume):
                     one = T.add(t, T.const(1, t.w))
                     if any(nv is T.ite(a_, one, t) for a_ in accepted):
+                        okl = True
+                # counted downwards: from the number of rounds, while > 0, one less exactly when the measurement was accepted
+                rname = g.adt["variants"][0]["fields"][iR]["name"]
+                is_rounds = init is pre.fields[iR] or (init.op == "res" and str(init.aux).endswith("." + rname))  # (after the opaque priming call)
+                if is_rounds and any((a.op == "ult" and a.args[0].op == "const" and a.args[0].aux == 0 and a.args[1] is t)
+                                                   or a is T.bnot(T.eqz(t)) for a in assume):
+                    less = T.sub(t, T.const(1, t.w))
+                    if any(nv is T.ite(a_, less, t) for a_ in accepted):
                         okl = True
     chk.ob("R8", "gen_entropy|per round: repeat measure_jitter until it is accepted", okl, "loops: %d" % len(recs), where=crate.bodies[gk]["span"][0])
     # EcState initialisation: prev_time = priming reading, deltas 0, mem zeroed: visible in the first measure_jitter call's arguments
